@@ -276,10 +276,20 @@ def st_case(draw):
         c.update(x=H(x), lens=lens)
     elif fam == "split_bad":
         lens = draw(st.lists(st.integers(1, 16), min_size=0, max_size=8))
-        delta = draw(st.sampled_from([-3, -1, 1, 2, 17]))
-        n = max(0, sum(lens) + delta)
-        if n == sum(lens):
-            n += 1
+        how = draw(st.sampled_from(["delta", "delta", "cut_at_field_boundary", "extra_fields", "empty_input"]))
+        if how == "cut_at_field_boundary" and len(lens) >= 2:
+            # the input ends exactly where a field ends: a proper prefix of the length vector matches it
+            n = sum(lens[:draw(st.integers(0, len(lens) - 1))])
+        elif how == "extra_fields":
+            n = sum(lens)
+            lens = lens + draw(st.lists(st.integers(1, 16), min_size=1, max_size=3))
+        elif how == "empty_input" and lens:
+            n = 0
+        else:
+            delta = draw(st.sampled_from([-3, -1, 1, 2, 17]))
+            n = max(0, sum(lens) + delta)
+            if n == sum(lens):
+                n += 1
         c.update(x=H(draw(st.binary(min_size=n, max_size=n))), lens=lens)
     elif fam == "int":
         k = draw(st.integers(0, 512))
